@@ -83,6 +83,13 @@ Section Reader.
   Definition prelude (offset : N) (st : rstate) (target : N) : res rstate :=
     if negb (target =? r_cur st) || (offset <? r_doff st) then restart st target else Ok st.
 
+  (* every error return of the loop that finds the frame different from what the table says (checksum mismatch, frame
+     shorter than its entry), like a decoder error and a failed read, leaves the reader positioned nowhere:
+     curFrame = (U32)-1 (fix a2a0322 for the two corruption_detected returns; before it the position stayed claimed
+     while the decoder had finished the frame, and the next call for the same frame continued into the NEXT frame of the file) *)
+  Definition forget_position (st : rstate) : rstate :=
+    mkR 4294967295 (r_doff st) (d_frame st) (d_prod st) (d_fin st) (r_acc st) (r_trace st).
+
   Section Call.
     Variable offset len : N.                  (* len after clamping *)
     Let endpos := w64 (offset + len).
@@ -132,12 +139,12 @@ Section Reader.
               (* frame complete: verify checksum *)
               if negb (in_range t target) then RTrap 53 else
               if t_flag t && negb (H (revT acc') mod 4294967296 =? e_k (ent t target))
-              then RErr sk_E_corruption_detected dst' st2
+              then RErr sk_E_corruption_detected dst' (forget_position st2)
               else if r_doff st2 <? endpos then
                 match offset_to_frame t (r_doff st2) with
                 | Ok target' =>
                     if short_frame_check && (w32 target' =? r_cur st2)
-                    then RErr sk_E_corruption_detected dst' st2 else
+                    then RErr sk_E_corruption_detected dst' (forget_position st2) else
                     match prelude offset st2 (w32 target') with
                     | Ok st3 => rloop orc' st3 (w32 target') np' dst'
                     | Err c => RErr c dst' st2
